@@ -22,63 +22,89 @@ What is only STATED (`…_stmt`, tied by the correspondence run and the spec ora
 catalogue spec over whole deviation-free histories, the invariant over all handlers, all-or-none for accepted /
 rolled-back template updates.
 -/
-import Kap.Proofs.C14
+import Kap.Proofs.C14Inv
 namespace Kap.Props.C14
 open Kap.C14
 
 /-! ### Rejected requests -/
 
 /-- **A rejected request leaves the catalogue unchanged** — every handler, every state, every oracle: when the
-answer is 400 or 404, the tasks, the templates, the template associations and the executing set are exactly as
-before (the repaired code; see `snapshot_rejected_create_leaves_association` for the pinned snapshot). -/
+answer is 400 or 404, the tasks, the templates, the template associations and the executing set (the `view`) are
+exactly as before (the repaired code; see `snapshot_rejected_create_leaves_association` for the pinned snapshot). -/
 theorem rejected_request_leaves_no_trace (env : Env) (fail : List String) (w : World) (op : Op)
     (h : (handle Variant.fixed env fail w op).2 = .bad ∨ (handle Variant.fixed env fail w op).2 = .nf) :
-    Same w (handle Variant.fixed env fail w op).1 :=
+    (handle Variant.fixed env fail w op).1.view = w.view :=
   handle_rejected env fail w op h
 
 /-- … in particular a template update rejected by validation changes none of the tasks. -/
 theorem template_update_rejected_changes_none (env : Env) (fail : List String) (w : World) (id newId script : String)
     (h : (updateTemplate env fail w id newId script).2 = .bad ∨ (updateTemplate env fail w id newId script).2 = .nf) :
     (updateTemplate env fail w id newId script).1.store.tasks = w.store.tasks :=
-  (updateTemplate_rejected env fail w id newId script h).tasks
+  congrArg View.tasks (updateTemplate_rejected env fail w id newId script h)
 
 /-! ### Starting tasks -/
 
 /-- **Its start succeeded** = the oracle: `startTask` answers `startOK`, stores nothing visible, and changes the
 executing flag of that task only — to true exactly when the start succeeds. -/
-theorem start_outcome_is_oracle (env : Env) (fail : List String) (w : World) (t : Task) :
-    (startTask env fail w t).2 = startOK env fail t ∧
-    (startTask env fail w t).1.store = w.store ∧
-    (startTask env fail w t).1.exec = fun j => if j = t.id then (startOK env fail t || w.exec j) else w.exec j :=
-  ⟨startTask_ok env fail w t, startTask_store env fail w t, startTask_exec env fail w t⟩
+theorem start_outcome_is_oracle (env : Env) (fail : List String) (w : World) (id : String) (t : Task) :
+    (startTask env fail w id t).2 = startOK env fail id t ∧
+    (startTask env fail w id t).1.store = w.store ∧
+    (startTask env fail w id t).1.exec = fun j => if j = id then (startOK env fail id t || w.exec j) else w.exec j :=
+  ⟨startTask_ok env fail w id t, startTask_store env fail w id t, startTask_exec env fail w id t⟩
 
 /-! ### Restart -/
 
 /-- **After a restart every enabled task is executing again** (when its start succeeds), nothing else is, and the
-stored catalogue is untouched — for ANY file whose task keys are consistent (clean restart or restart from a
-snapshot at a transaction boundary alike). -/
+stored catalogue is untouched — for ANY file whose tasks are enumerated by the ID index (clean restart or restart
+from a snapshot at a transaction boundary alike). -/
 theorem restart_restores (env : Env) (fail : List String) (s : Store) (br : List String) (h : Dom s) :
     (boot env fail s br).store = s ∧
     ∀ i, (boot env fail s br).exec i = true ↔
-      ∃ t, s.tasks i = some t ∧ t.enabled = true ∧ startOK env fail t = true :=
-  boot_spec env fail s br h
+      ∃ t, s.tasks i = some t ∧ t.enabled = true ∧ startOK env fail i t = true := by
+  obtain ⟨hs, he⟩ := boot_spec env fail s br
+  refine ⟨hs, fun i => ?_⟩
+  rw [he i]
+  constructor
+  · rintro ⟨_, t, ht, hen, hok⟩; exact ⟨t, ht, hen, hok⟩
+  · rintro ⟨t, ht, hen, hok⟩; exact ⟨h i t ht, t, ht, hen, hok⟩
 
-/-- The running-state invariant (executing ⇒ stored and enabled) holds after every process start. -/
-theorem restart_establishes_invariant (env : Env) (fail : List String) (s : Store) (br : List String) (h : Dom s) :
-    Inv (boot env fail s br) :=
-  boot_inv env fail s br h
+/-! ### The running-state invariant: executing ⇒ stored and enabled -/
 
-/-! ### Delete -/
+/-- **Every step preserves the running-state invariant** — every handler (create, update incl. rename and template
+change, delete, template create / update with its rollback loop / delete, restart), every revision of the code
+(`Variant`), every oracle, and every crash point (restart from the file at any transaction boundary of the request). -/
+theorem executing_implies_enabled (v : Variant) (env : Env) (r : Req) (w : World) (h : ExecInv w) :
+    ExecInv (step v env r.fail r.cut w r.op).1 :=
+  step_inv v env r.fail r.cut w r.op h
 
-/-- Delete preserves the running-state invariant … -/
-theorem delete_preserves_invariant (w : World) (id : String) (h : Inv w) : Inv (deleteTask w id).1 :=
-  deleteTask_inv w id h
+/-- … hence it holds after EVERY history of requests, restarts and crashes. -/
+theorem executing_implies_enabled_all_histories (v : Variant) (env : Env) (reqs : List Req) :
+    ExecInv (run v env reqs) := by
+  unfold run
+  suffices ∀ (w : World), ExecInv w → ExecInv (reqs.foldl (fun w r => (step v env r.fail r.cut w r.op).1) w) from
+    this {} (fun i hi => by simp [World.view] at hi)
+  induction reqs with
+  | nil => exact fun w h => h
+  | cons r rest ih => exact fun w h => ih _ (step_inv v env r.fail r.cut w r.op h)
 
-/-- … and, given it, the deleted ID is neither shown nor executing afterwards. (`deleteTask` calls
+/-- Every process start establishes it, whatever the file holds. -/
+theorem restart_establishes_invariant (env : Env) (fail : List String) (s : Store) (br : List String) :
+    ExecInv (boot env fail s br) :=
+  boot_inv env fail s br
+
+/-- Given the invariant, a deleted ID is neither shown nor executing afterwards. (`deleteTask` calls
 `TaskMaster.DeleteTask` only when the stored status is Enabled: this is where executing ⇒ enabled is needed.) -/
-theorem delete_removes_and_stops (w : World) (id : String) (h : Inv w) :
-    (deleteTask w id).1.store.tasks id = none ∧ (deleteTask w id).1.exec id = false :=
-  deleteTask_gone w id h
+theorem delete_removes_and_stops (w : World) (id : String) (h : ExecInv w) :
+    (deleteTask w id).1.store.tasks id = none ∧ (deleteTask w id).1.exec id = false := by
+  have hinv := deleteTask_inv w id h
+  have hnone : (deleteTask w id).1.store.tasks id = none := by
+    cases ht : w.store.tasks id with
+    | none => have := congrArg View.tasks (deleteTask_view_none w id ht); simp at this; rw [this]; exact ht
+    | some t =>
+      have := congrArg View.tasks (deleteTask_view_some w id t ht)
+      simp only [view_tasks] at this
+      rw [this]; simp [View.del]
+  exact ⟨hnone, View.EI.not_exec hinv hnone⟩
 
 /-! ### Counterexamples: the repaired defects (snapshot order) and the recorded findings (today's code) -/
 
@@ -125,8 +151,10 @@ theorem fixed_template_change_followed :
 /-- Finding `start-failure-after-commit`: the create is answered 500, yet the task is stored as enabled and is not
 executing (the full statement `rejected_request_leaves_catalogue_stmt` is false for answers 500). -/
 theorem start_failure_leaves_enabled_not_executing :
-    let x := step Variant.fixed demoEnv ["a"] none {} (.create "a" { script := "s0", dbrps := ["db.rp"], status := some true })
-    x.2 = .fail ∧ (x.1.store.tasks "a").map (·.enabled) = some true ∧ x.1.exec "a" = false := by decide
+    (step Variant.fixed demoEnv ["a"] none {} (.create "a" { script := "s0", dbrps := ["db.rp"], status := some true })).2 = .fail ∧
+    ((step Variant.fixed demoEnv ["a"] none {} (.create "a" { script := "s0", dbrps := ["db.rp"], status := some true })).1.store.tasks "a").map (·.enabled) = some true ∧
+    (step Variant.fixed demoEnv ["a"] none {} (.create "a" { script := "s0", dbrps := ["db.rp"], status := some true })).1.exec "a" = false := by
+  decide
 
 /-- corpus/C14/finding-template-update-rollback-incomplete.ops, case dbrps. -/
 def rollbackDbrps : List Req :=
@@ -136,83 +164,46 @@ def rollbackDbrps : List Req :=
     ⟨.tupdate "T" "" "td", ["b"], none⟩ ]
 
 /-- Finding `template-update-rollback-incomplete`: the update fails on the second task and is answered 500; the
-rollback restores the scripts but `a` keeps the NEW script's dbrps and the template keeps the NEW script. -/
+rollback restores the scripts but `a` keeps the NEW script's dbrps and the template keeps the NEW script
+(so `template_update_all_or_none_stmt` is false for answers 500). -/
 theorem rollback_keeps_new_dbrps_and_template :
-    let w := run Variant.fixed demoEnv rollbackDbrps
-    (w.store.tasks "a").map (fun t => (t.script, t.dbrps)) = some ("t0", ["pdb.prp"]) ∧
-    (w.store.tmpls "T").map (·.script) = some "td" ∧
+    ((run Variant.fixed demoEnv rollbackDbrps).store.tasks "a").map (fun t => (t.script, t.dbrps)) = some ("t0", ["pdb.prp"]) ∧
+    (run Variant.fixed demoEnv rollbackDbrps).store.tmpls "T" = some "td" ∧
     (step Variant.fixed demoEnv ["b"] none (run Variant.fixed demoEnv (rollbackDbrps.take 3)) (.tupdate "T" "" "td")).2 = .fail := by
   decide
 
 /-- Same finding, template renamed: the old template is gone, the tasks still name it, and the tasks touched before
 the failure stay associated with the new ID. -/
+def rollbackRename : List Req := rollbackDbrps.take 3 ++ [⟨.tupdate "T" "U" "", ["b"], none⟩]
+
 theorem rollback_after_template_rename_leaves_stale_state :
-    let w := run Variant.fixed demoEnv (rollbackDbrps.take 3 ++ [⟨.tupdate "T" "U" "", ["b"], none⟩])
-    w.store.tmpls "T" = none ∧ (w.store.tasks "a").map (·.tmpl) = some "T" ∧
-    w.store.assoc "U" "a" = true ∧ w.store.assoc "T" "a" = false := by decide
+    (run Variant.fixed demoEnv rollbackRename).store.tmpls "T" = none ∧
+    ((run Variant.fixed demoEnv rollbackRename).store.tasks "a").map (·.tmpl) = some "T" ∧
+    (run Variant.fixed demoEnv rollbackRename).store.assoc "U" "a" = true ∧
+    (run Variant.fixed demoEnv rollbackRename).store.assoc "T" "a" = false := by decide
 
 /-- Finding `crash-between-transactions`: a restart from the file as it was after the first transaction of a rename
 shows BOTH IDs, both executing. -/
+def crashRename : List Req :=
+  [ ⟨.create "a" { script := "s0", dbrps := ["db.rp"], status := some true }, [], none⟩,
+    ⟨.update "a" { newId := "b" }, [], some 1⟩ ]
+
 theorem crash_in_rename_shows_both_ids :
-    let w := run Variant.fixed demoEnv
-      [ ⟨.create "a" { script := "s0", dbrps := ["db.rp"], status := some true }, [], none⟩,
-        ⟨.update "a" { newId := "b" }, [], some 1⟩ ]
-    (w.store.tasks "a").isSome = true ∧ (w.store.tasks "b").isSome = true ∧ w.exec "a" = true ∧ w.exec "b" = true := by
+    ((run Variant.fixed demoEnv crashRename).store.tasks "a").isSome = true ∧
+    ((run Variant.fixed demoEnv crashRename).store.tasks "b").isSome = true ∧
+    (run Variant.fixed demoEnv crashRename).exec "a" = true ∧ (run Variant.fixed demoEnv crashRename).exec "b" = true := by
   decide
 
 /-- Finding `template-delete-orphans-tasks`: after delete + re-create of template `T`, task `b` still names `T`
 but is not associated, and `T`'s update does not reach it. -/
+def orphan : List Req :=
+  [ ⟨.tcreate "T" "t0", [], none⟩, ⟨.create "b" { tmpl := "T", dbrps := ["db.rp"] }, [], none⟩,
+    ⟨.tdelete "T", [], none⟩, ⟨.tcreate "T" "t0", [], none⟩, ⟨.tupdate "T" "" "td", [], none⟩ ]
+
 theorem template_delete_orphans_tasks :
-    let w := run Variant.fixed demoEnv
-      [ ⟨.tcreate "T" "t0", [], none⟩, ⟨.create "b" { tmpl := "T", dbrps := ["db.rp"] }, [], none⟩,
-        ⟨.tdelete "T", [], none⟩, ⟨.tcreate "T" "t0", [], none⟩, ⟨.tupdate "T" "" "td", [], none⟩ ]
-    (w.store.tasks "b").map (fun t => (t.script, t.tmpl)) = some ("t0", "T") ∧ w.store.assoc "T" "b" = false ∧
-    (w.store.tmpls "T").map (·.script) = some "td" := by decide
-
-/-! ### Full-strength statements that are NOT proved (tied by the correspondence run and the spec oracle only) -/
-
-/-- The model state as the catalogue a client sees. -/
-def shows (w : World) (c : Cat) : Prop :=
-  w.store.tasks = c.tasks ∧ (∀ i, (w.store.tmpls i).map (·.script) = c.tmpls i) ∧ ∀ i, w.exec i = c.executing i
-
-/-- Clause excluding the recorded findings from a history: no refused start on a create/update, no template update
-answered 500, no crash point, no delete of a template in use. -/
-def deviationFree (env : Env) (c : Cat) (r : Req) (resp : Resp) : Prop :=
-  r.cut = none ∧ ¬ devStartFail env r.fail c r.op resp = true ∧
-  (∀ id n s, r.op = .tupdate id n s → resp ≠ .fail) ∧
-  (∀ id, r.op = .tdelete id → ∀ i t, c.tasks i = some t → t.tmpl ≠ id)
-
-/-- `api_shows_last_accepted` + `executing_iff_enabled_and_started`, full strength: along every deviation-free
-history the model shows exactly the spec catalogue (accepted ⇒ declared effect, rejected ⇒ nothing; executing ⇔
-enabled ∧ started). Missing: the per-handler effect lemmas for accepted create/update/template update and the
-association invariant (assoc m k ⇔ task k has template m) they need. -/
-def api_shows_last_accepted_stmt : Prop :=
-  ∀ (env : Env) (w : World) (c : Cat) (r : Req), Inv w → shows w c →
-    let x := step Variant.fixed env r.fail r.cut w r.op
-    deviationFree env c r x.2 → shows x.1 (specStep env r.fail c r.op x.2)
-
-/-- Rejected requests at full strength (answers 500 included) — FALSE of today's code
-(`start_failure_leaves_enabled_not_executing`, `rollback_keeps_new_dbrps_and_template`); proved for 400/404 as
-`rejected_request_leaves_no_trace`. -/
-def rejected_request_leaves_catalogue_stmt : Prop :=
-  ∀ (env : Env) (fail : List String) (w : World) (op : Op),
-    (handle Variant.fixed env fail w op).2 ≠ .ok → Same w (handle Variant.fixed env fail w op).1
-
-/-- The running-state invariant over ALL handlers and crash points (proved here for delete and for every process
-start; create / update / template update are exercised by the correspondence run only). -/
-def executing_implies_enabled_stmt : Prop :=
-  ∀ (v : Variant) (env : Env) (r : Req) (w : World), Inv w → Inv (step v env r.fail r.cut w r.op).1
-
-/-- All-or-none for template updates, on the model: every task created from the template is re-synchronised, or
-every one is as before. FALSE of today's code when the update is answered 500
-(`rollback_keeps_new_dbrps_and_template`); unproved for accepted updates (needs the association invariant and an
-induction over `updateAll`). Proved: `template_update_rejected_changes_none` (400/404). -/
-def template_update_all_or_none_stmt : Prop :=
-  ∀ (env : Env) (fail : List String) (w : World) (id newId script : String) (ids : List String) (orig : Tmpl),
-    w.store.tmpls id = some orig →
-    let w' := (updateTemplate env fail w id newId script).1
-    allOrNone env ids w.store.tasks w'.store.tasks id orig.script
-      (if newId ≠ "" then newId else id) (if script ≠ "" then script else orig.script) = true
+    ((run Variant.fixed demoEnv orphan).store.tasks "b").map (fun t => (t.script, t.tmpl)) = some ("t0", "T") ∧
+    (run Variant.fixed demoEnv orphan).store.assoc "T" "b" = false ∧
+    (run Variant.fixed demoEnv orphan).store.tmpls "T" = some "td" := by decide
 
 /-! ### Non-vacuity -/
 
@@ -227,7 +218,6 @@ def twoTasks : List Req :=
     ⟨.create "b" { script := "s0", dbrps := ["db.rp"] }, [], none⟩, ⟨.restart, [], none⟩ ]
 
 example : (run Variant.fixed demoEnv twoTasks).store.tids = ["a", "b"] ∧
-    ((run Variant.fixed demoEnv twoTasks).store.tasks "a").map (·.id) = some "a" ∧
     (run Variant.fixed demoEnv twoTasks).exec "a" = true ∧ (run Variant.fixed demoEnv twoTasks).exec "b" = false := by
   decide
 
